@@ -22,7 +22,7 @@ rm -f /repo/zz_seeded_demo_test.go
 if echo "$DEMO" | grep -q '^ok'; then echo "RESULT $D demo-does-not-fail-with-patch"; exit 2; fi
 CAUGHT=""; MISSED=""
 for c in $CHECKS; do
-  OUT=$(VERIF_SEED=${VERIF_SEED:-1} ./check $c $TIER 2>&1); rc=$?
+  OUT=$(VERIF_OUT=$PWD/.scratch/evalout VERIF_SEED=${VERIF_SEED:-1} ./check $c $TIER 2>&1); rc=$?
   if [ $rc -eq 1 ]; then
     SIG=$(echo "$OUT" | grep -m3 'sig=' | sed 's/^ *//' | cut -c1-220 | tr '\n' '|')
     CAUGHT="$CAUGHT $c"; echo "  CAUGHT by $c: $SIG"
